@@ -1168,7 +1168,24 @@ pub fn run_history<K: Kt>(dir: &Path, h: &History, mon: &Mon, ctx: &mut Ctx) -> 
             return RunResult { stop: Some(ctx.classify(f)), calls: 0 };
         }
     };
-    let r = run_ops(&mut s, h, 0, mon, ctx);
+    let mut r = run_ops(&mut s, h, 0, mon, ctx);
+    // a history that ends early on a finding owned by another property (a wrong or failing call) has still produced
+    // files: when the running check watches the files (decoder monitors), they are judged at the point reached. The
+    // one key whose state the failed call left undefined is first re-read from the map itself.
+    if let (Some(Stop::Foreign(f)), true) = (&r.stop, mon.decode_at_sync || mon.decode_at_close) {
+        let at = f.at;
+        let touched: Vec<usize> = match h.ops.get(at) {
+            Some(Op::Put(k, _)) | Some(Op::Del(k)) | Some(Op::Get(k)) | Some(Op::Has(k)) => vec![*k],
+            _ => vec![],
+        };
+        if !touched.is_empty() && s.map.is_some() && touched.iter().all(|&k| s.resync_key(&h.keys[k])) {
+            ctx.count("judged_after_foreign_end", 1);
+            s.close();
+            if let Err(f2) = s.decode_checkpoint(at, mon, ctx, "close") {
+                r.stop = Some(ctx.classify(f2));
+            }
+        }
+    }
     s.close();
     ctx.drain_notes();
     r
